@@ -3,7 +3,7 @@ import itertools
 from ..runner import Spec, Case
 from .. import core
 
-MUTATORS = ('assign', 'assignself', 'assigns', 'concat', 'concats', 'append', 'resize', 'clear', 'rem', 'rems', 'fmt', 'fmtl', 'print', 'pf', 'show', 'remi', 'fmtrej', 'pfrej')
+MUTATORS = ('assign', 'assignself', 'assigns', 'concat', 'concats', 'append', 'resize', 'clear', 'rem', 'rems', 'fmt', 'fmtl', 'print', 'pf', 'show', 'remi', 'fmtrej', 'pfrej', 'look', 'looks')
 ESC = {7: b'\\a', 8: b'\\b', 12: b'\\f', 10: b'\\n', 13: b'\\r', 9: b'\\t', 11: b'\\v', 92: b'\\\\', 39: b"\\'", 34: b'\\"', 63: b'\\?'}
 
 def hx(b): return b.hex() if b else '-'
@@ -30,6 +30,22 @@ def render_spec(flags, width, prec, lng, conv, v):
         return pad(left, zero, width, b'-' if m < 0 else (b'+' if plus else b''), str(abs(m)).encode())
     m = v % (2**64 if lng else 2**32)
     return pad(left, zero, width, b'', format(m, {'u': 'd', 'x': 'x', 'X': 'X', 'o': 'o'}[conv]).encode())
+
+UNESC = {v[1]: k for k, v in ESC.items()}
+
+def look_ref(t, pos):
+    """what String_Look leaves in the target when it reads the text t from pos, and whether it returns (only to keep track of the text)"""
+    out = bytearray()
+    if t[pos:pos + 1] != b'"': return b'', False
+    i = pos + 1
+    while True:
+        if i >= len(t): return bytes(out), False
+        c = t[i]
+        if c == 34: return bytes(out), True
+        if c == 92:
+            if i + 1 >= len(t) or t[i + 1] not in UNESC: return bytes(out), False
+            out.append(UNESC[t[i + 1]]); i += 2; continue
+        out.append(c); i += 1
 
 def show_val(v):
     if isinstance(v, int): return str(v).encode()
@@ -117,6 +133,36 @@ class Gen:
         if rng.random() < 0.08 and len(args) < 8: args.append(self.rval())           # an argument no specification uses
         return fmt, args, out
     def emit(self, l): self.lines.append(l)
+    def look_step(self, k, others):
+        """look_from(s_k, s_j, pos) -> String_Look: a round trip through show_to, a damaged shown String, or whatever j holds"""
+        rng = self.rng; j = rng.choice(others); tj = self.txt[j]; r = rng.random()
+        op = 'looks' if rng.random() < 0.25 else 'look'
+        if r < 0.55:
+            x = self.operand(self.txt[k])[:60] if rng.random() < 0.4 else self.rtext(self.rlen(60))
+            if rng.random() < 0.3: x += bytes(rng.choice(list(ESC)) for _ in range(rng.randrange(1, 4)))
+            pos = rng.choice([0, len(tj), rng.randrange(len(tj) + 1)])
+            if pos + 2 * len(x) + 2 > self.maxlen + 64: pos = 0
+            self.emit(f'show {j} {pos} s{hx(x)}'); tj = tj[:pos] + shown(x)
+            if rng.random() < 0.3:
+                y = self.rtext(rng.randrange(1, 5)); self.emit(f'append {j} {hx(y)}'); tj += y      # text behind the closing quote
+            self.txt[j] = tj
+        elif r < 0.85:
+            x = shown(self.rtext(self.rlen(12))); w = rng.randrange(7)
+            if w == 0: x = x[:-1]                                                       # unterminated
+            elif w == 1: x = x[1:]                                                      # no opening quote
+            elif w == 2: x = x[:-1] + b'\\'                                             # a backslash, then the end
+            elif w == 3: q = rng.randrange(1, len(x)); x = x[:q] + b'\\' + bytes([rng.choice(b'cdexz0A 1')]) + x[q:]   # unknown escape letter
+            elif w == 4: q = rng.randrange(1, len(x)); x = x[:q] + b'\\' + bytes([rng.choice(list(UNESC))]) + x[q:]    # a known one
+            elif w == 5: x = b''
+            else: q = rng.randrange(1, len(x) + 1); x = x[:q] + b'"' + x[q:]            # a quote in the middle: the literal ends there
+            x = bytes(c for c in x if c != 0)
+            self.emit(f'assign {j} {hx(x)}'); self.txt[j] = tj = x; pos = 0
+        else:
+            pos = rng.randrange(len(tj) + 1)
+            q = tj.find(b'"')
+            if q >= 0 and rng.random() < 0.6: pos = q
+        self.emit(f'{op} {k} {j} {pos}')
+        self.txt[k] = look_ref(tj, pos)[0]
     def live(self): return sorted(self.txt)
     def step(self):
         rng = self.rng
@@ -131,6 +177,7 @@ class Gen:
             return
         k = rng.choice(self.live()); t = self.txt[k]; n = len(t)
         others = [j for j in self.live() if j != k]
+        if others and rng.random() < 0.05: self.look_step(k, others); return
         r = rng.random()
         if r < 0.02 and len(self.txt) > 1:
             self.emit(f'del {k}'); del self.txt[k]
@@ -228,7 +275,7 @@ HASH_ALPHABETS = (bytes(range(32, 127)), bytes(range(0x80, 0x100)), bytes(range(
                   b'a\x01\x1f\x7f\x80\xff', b'ab')
 CMP_BYTES = (0x01, 0x09, 0x1f, 0x20, 0x41, 0x7e, 0x7f, 0x80, 0x81, 0xa5, 0xfe, 0xff)
 MUT_KINDS = ('new', 'assign', 'assigns', 'copy', 'concat', 'append', 'concats', 'resize', 'rem', 'rems', 'fmt', 'fmtl', 'print', 'printL',
-             'pf', 'show', 'pfrej', 'unchanged')
+             'pf', 'show', 'pfrej', 'look', 'unchanged')
 
 def hash_lengths(rng, tier):
     ls = list(range(0, 41)) + [47, 48, 49, 63, 64, 65]
@@ -282,10 +329,32 @@ def mutation_to(rng, kind, T, al):
         body = T[cut + 1:n - 1]
         if T[cut] != 34 or T[n - 1] != 34 or any(c in ESC for c in body): return None
         return [f'assign 0 {hx(T[:cut] + junk)}', f'show 0 {cut} s{hx(body)}']
+    if kind == 'look': return look_lines(rng, T, rt)
     if kind == 'pfrej': return None if (37 in T[cut:] or cut == n) else [f'assign 0 {hx(T[:cut] + junk)}', f'pfrej 0 {cut} {hx(T[cut:])}']
     if kind == 'unchanged':       # the refused calls leave the text alone: the hash after them is the hash before
         return [f'assign 0 {hx(T)}', f'remi 0 {rng.choice([0, 7, -1, 2**40])}', 'assignself 0', f'fmtrej 0 {rng.choice([0, n])}'] + ([f'rem 0 {hx(T + b"a")}'])
     return None
+
+def look_lines(rng, T, rt):
+    pre = rt(rng.choice([0, 0, 3]))
+    return [f'new 1 {hx(pre + shown(T) + rt(rng.choice([0, 2])))}', f"{rng.choice(['look', 'look', 'looks'])} 0 1 {len(pre)}", 'del 1']
+
+def look_family(rng, tier):
+    """String_Look: every byte value as a one-character text and inside a longer one, through show_to and back (the escape table in
+    both directions); every byte value after a backslash; every length 0..40; shown Strings cut short at every position"""
+    lines = ['new0 0', 'new0 1']
+    for c in range(1, 256):
+        x = bytes([c]); lines += [f'show 1 0 s{hx(x)}', 'look 0 1 0', f'eq 0 {hx(x)}']
+        y = b'p' + x + b'q' + x; lines += [f'assign 1 {hx(b"ab")}', f'show 1 2 s{hx(y)}', 'looks 0 1 2', f'eq 0 {hx(y)}', 'hash 0']
+        z = bytes([34, 107, 92, c, 109, 34]); lines += [f'assign 1 {hx(z)}', 'look 0 1 0', 'len 0']
+    for L in range(0, 41 if tier == 'quick' else 130):
+        al = HASH_ALPHABETS[L % len(HASH_ALPHABETS)]; x = bytes(rng.choice(al) for _ in range(L))
+        lines += [f'assign 1 {hx(shown(x) + b"tail")}', 'look 0 1 0', f'eq 0 {hx(x)}', 'hash 0', 'len 0']
+    x = bytes(rng.choice(b'ab"\\\n\t?z') for _ in range(12)); sx = shown(x)
+    for cut in range(len(sx)):
+        if sx[:cut]: lines += [f'assign 1 {hx(sx[:cut])}', 'look 0 1 0', 'len 0']
+    lines += ['del 1', 'del 0']
+    return [lines]
 
 def hash_family(rng, tier):
     """every length 0..40 (and longer ones) x every kind of mutation, the byte class rotating (quick) or every class (thorough);
@@ -359,7 +428,8 @@ class C16(Spec):
                  'formatted writes that reach a String through print_to / print_to_with / show_to are a machine over the format_to calls whose '
                  'position arithmetic is regenerated from src/Show.c each run; '
                  'white-box differential check (whole allocation, exact size from ASan) against the real library and a libc reference '
-                 '(snprintf of the same format at the same offset of a reference buffer)')
+                 '(snprintf of the same format at the same offset of a reference buffer); String_Look and the alloc checks of non-heap receivers are model functions over '
+                 'terms extracted from the source (escape table, quote tests, guard positions)')
     level_text = ('Theorems C16_refines_bytes / C16_terminated / C16_rem_first_occurrence / C16_rem_absent: for every creation and every history of '
                   'assign, concat, append, resize, clear, rem and formatted writes with NUL-free operands, and every value of the indeterminate bytes realloc '
                   'hands out, the model of src/String.c holds exactly the abstract string computed with list functions, is NUL-terminated at len < cap after '
@@ -396,7 +466,16 @@ class C16(Spec):
                   'Direct oracle, independent of model and library: len (strlen and a byte count), c_str (strcmp), cmp / lt / gt / le / ge (sign of strcmp and of the '
                   'first differing bytes as unsigned char), eq / neq (byte comparison), mem (strstr and a try-every-start search), rem (strstr + memmove), '
                   'hash (the harness\'s own MurmurHash64A, two formulations, validated at start-up against tests/test.c\'s constants and Python-computed values) — '
-                  'each after every mutation and at every observer op.')
+                  'each after every mutation and at every observer op. '
+                  'Extension round: String_Look (look_from / scan_from "%$" into a String) is a model function (Cello/StrLook.lean) over the quote tests, escape lead, '
+                  'escape table and place of String_Clear extracted from src/String.c (C16_look_current_source): C16_look_is_history — it IS the history '
+                  'clear :: concat per character read (same object, outcome, access log), C16_look_refines — on every NUL-free input and position, also when FormatError '
+                  'leaves, the target is well-formed, holds the text of that history, is NUL-terminated inside its allocation and no access left it; '
+                  'C16_look_reads_back_show — what show_to wrote for any NUL-free text is read back exactly, position returned = behind the closing quote; '
+                  'C16_look_without_clear_refuted. Receivers that are not on the heap (Cello/StrRecv.lean): where the CELLO_ALLOC_CHECK test stands in each '
+                  'reallocating function is extracted (C16_guards_current_source); C16_non_heap_receiver — on a stack / static String every reallocating '
+                  'operation raises ValueError with nothing touched, rem keeps the whole per-step statement in place, assign(s, s) returns at once; '
+                  'C16_heap_receiver_runs; C16_missing_alloc_check_refuted.')
     level_note = ('Trusted: Lean kernel; axioms propext/Quot.sound/Classical.choice at most; translate/g_str.py; the harness/driver comparison (testing); '
                   'libc str*/mem*/realloc/vsnprintf are modelled by their ISO C specification, not verified; hash_data is engine hash\'s model (C10: '
                   'MurmurHash64A), composed here in C16_hash_is_murmur and compared value by value with the library; size_t and the int arithmetic of '
@@ -407,7 +486,10 @@ class C16(Spec):
                   'everywhere else (C16_contract_is_exact, C16_alias_always_undefined), refuted on witnesses (C16_alias_refuted, C16_alias_operand_refuted), '
                   'and the proposed repair is proved to meet the full statement (C16_alias_repaired). Allocation failure is modelled for String_Resize only '
                   '(the other functions test the result of realloc at the same place — pinned by the extracted shape — but their failing call is not an '
-                  'outcome of the model). pos > len / pos < 0 are outside the statement.')
+                  'outcome of the model). pos > len / pos < 0 are outside the statement. String_Look: the input is another String (String_Format_From = '
+                  'vsscanf at val + pos, `%c` reads one byte, EOF at the terminator -> FormatError), never the target itself; scan_from_with / look_from are '
+                  'pinned texts, their `%c` step is modelled as reading one byte. A realloc / free of a non-heap buffer is an opaque `badRealloc` outcome. '
+                  'Pinned only (text compared, no theorem): c_str, String_C_Str, String_New body, String_Del, assign, copy, look_from, String_Format_From.')
     rule = ('op files over up to 4 heap Strings: (a) exhaustive: every target over {a,b} up to length 4 (quick) / 5 (thorough) x every operand up to '
             'length 3 / 4 for rem, mem, cmp, eq; (b) random histories over the alphabets {a,b}, {a,b,c}, printable, all 255 byte values, operands chosen '
             'relative to the current text: empty, equal, at the start, middle, end, repeated/overlapping, near miss, longer than the target, absent; '
@@ -422,6 +504,11 @@ class C16(Spec):
             'rem, rems, fmt, fmtl, print, pf, show, pfrej, refused calls) over printable / >= 0x80 / control / all bytes, each followed by hash, plus per length '
             'texts differing in one byte (first, last, either side of the last 8-byte boundary); lengths 7 8 9 15 16 17 23 24 25 31 32 33 are favoured in (b),(c); '
             '(k) one in five targets of (b),(c) is a String that lives inside an Array (class AllocData; op newin); '
+            '(m) look / looks (look_from, scan_from "%$") in (b),(c): round trips through show_to at pos 0 / inside / at len with text behind the closing quote, damaged shown '
+            'Strings (unterminated, no opening quote, backslash at the end, unknown / known escape letters, a quote in the middle, empty), whatever the other String holds; '
+            'family look: every byte value 1..255 alone and inside a text through show_to and back, every byte value after a backslash, every length 0..40 (thorough ..129), '
+            'a shown String cut short at every position; `look` is also a mutation kind of (g); (l) stk: every reallocating call, rem at start / middle / end / absent / whole '
+            'and assign(s, s) on stack and static Strings (forked child); '
             '(h) at one position of otherwise equal texts every ordered pair of control / ASCII / 0x7f / >= 0x80 bytes and each against the terminator, through '
             'cmp, eq, mem and cmps; (i) one text doubled up to 65536 bytes, then 65537 and 65535. non-trivial item = a mutating op on a live String; distinct = distinct '
             '(op text, resulting dump) pairs.')
@@ -434,7 +521,9 @@ class C16(Spec):
                     'overlapping objects are undefined)',
                     'lean/Cello/Hash.lean + CelloGen/Hash.lean (engine hash, C10): the model of hash_data that C16_hash_is_murmur composes with, imported read-only',
                     'C `int` (pos, size, return values) and `size_t` as Nat; the preprocessor branch taken (neither CELLO_WINDOWS nor CELLO_MAC) is the one g_str.py extracts',
-                    'AddressSanitizer reports the exact requested size of an allocation and every out-of-bounds access')
+                    'AddressSanitizer reports the exact requested size of an allocation and every out-of-bounds access',
+                    'String_Look reads through scan_from(input, pos, "%c", chr): modelled as one byte of the input String per call, FormatError at its terminator '
+                    '(scan_from_with is C14/C15\'s subject; look_from and String_Format_From are pinned texts)')
     assumptions = ('operands are C strings (no NUL); generated histories pass them by value (another object) or, for assign, as the target itself: '
                    'assign from a view at an offset > 0 / concat / append / print_to "%s" with an operand inside the target\'s own allocation is known finding '
                    'KF-C16-alias-operand (witness corpus/kf_c16_alias.ops, modelled, never generated); aliased rem / mem / cmp make no realloc and assign(s, s) / '
@@ -453,6 +542,10 @@ class C16(Spec):
                    'returns size) — the Mac branch differs observably for pos > len (it appends after the OLD terminator instead of leaving the text unchanged; '
                    'outside the property) and, formatting before the realloc, does not have the aliasing defect of the portable one; '
                    '"libc rejects the format" is exercised with %lc of U+10FFFF in the C locale',
+                   'look_from / scan_from "%$" into a String: the input is ANOTHER heap String and 0 <= pos <= its len (the target as its own input is cleared before it is read: '
+                   'FormatError, not generated); a failed look leaves the target holding what was read until then — that this is observable is C15\'s known finding '
+                   'KF-C15-look-clobbers-target; for C16 the target is then simply that C string (modelled, generated, judged by value)',
+                   'non-heap receivers: stack / static Strings whose buffer is an array of the harness; del of such a String (String_Del\'s check, extracted) is not exercised',
                    'print_to_with on a String: formats of the grammar literal | %% | %[-0+]*[width][.prec][l]conv with conv in s c d i u x X o $ and one argument of the '
                    'right class per specification (Int, String, Tuple of these); %c never prints NUL; floats, %p and Array/List arguments (their text contains an '
                    'address) are left to C14; too few arguments (FormatError after a partial write, KF-C14-partial-write) is never generated')
@@ -523,11 +616,26 @@ class C16(Spec):
             for m in sorted({0, 1, max(0, n - 1), n, n + 1, n + rng.randrange(2, 100), rng.randrange(0, 1000000)}):
                 lines.append(f'oom resize {hx(t[:512])} {m}')
         cs.append(Case('oom_resize', lines))
+        # (l) receivers that are not on the heap (header class AllocStack — `$S("…")` — / AllocStatic): every reallocating function must refuse
+        # (ValueError, nothing touched), rem edits in place, assign(s, s) returns at once
+        lines = []
+        for t in texts[:8] + texts[-(2 if quick else 12):]:
+            t = t[:400]; n = len(t)
+            for cls in ('stack', 'static'):
+                x = bytes(rng.choice(b'ab') for _ in range(rng.randrange(0, 4)))
+                lines += [f'stk {cls} assign {hx(t)} {hx(x)}', f'stk {cls} concat {hx(t)} {hx(x)}', f'stk {cls} append {hx(t)} {hx(b"")}',
+                          f'stk {cls} resize {hx(t)} {rng.choice([0, n, n + 1, max(0, n - 1), rng.randrange(0, 1000)])}', f'stk {cls} clear {hx(t)}',
+                          f'stk {cls} fmt {hx(t)} {rng.choice([0, n, rng.randrange(n + 1)])} {hx(x)}', f'stk {cls} assignself {hx(t)}']
+                for o in sorted({0, n // 2, max(0, n - 2)}):
+                    lines += [f'stk {cls} rem {hx(t)} {hx(t[o:o + rng.choice([1, 2, 5])])}']
+                lines += [f'stk {cls} rem {hx(t)} {hx(t + b"q")}', f'stk {cls} rem {hx(t)} {hx(t)}']
+        cs.append(Case('nonheap', lines))
         # (g) the hash VALUE at every length 0..40 (+ longer) after every kind of mutation, and one-byte neighbours of equal length;
         # (h) the byte order of cmp / eq / mem at one position: control, ASCII, 0x7f, >= 0x80, terminator
         for r in range(boost if boost > 1 else 1):
             for i, c in enumerate(hash_family(rng, tier)): cs.append(Case(f'hashlen{r}_{i}', c))
             for i, c in enumerate(cmp_family(rng, tier)): cs.append(Case(f'cmpbytes{r}_{i}', c))
+            for i, c in enumerate(look_family(rng, tier)): cs.append(Case(f'look{r}_{i}', c))
             # (i) one text grown by doubling through 8192 … 65536 bytes, then 65537 and 65535 (sizes that no longer fit 16 bits)
             for i in range(1 if quick else 3):
                 T = bytes(rng.choice(HASH_ALPHABETS[(i + 3) % 4]) for _ in range(4096)); lines = [f'new 0 {hx(T)}', f'new 1 {hx(T)}']
@@ -541,6 +649,7 @@ class C16(Spec):
         items = set()
         for op, o in zip(ops, obs):
             w = op.split(' ')
+            if w[0] == 'stk' and 'bad-op' not in o: items.add(hash((op, o)))
             if w[0] in MUTATORS and 'bad-op' not in o:
                 items.add(hash((w[0], ' '.join(w[2:]), o.split(' ', 3)[3] if o.count(' ') >= 3 else o)))
         return items
@@ -554,7 +663,7 @@ class C16(Spec):
         for l in core.lines_with('S ', m_out):
             for f in l.split(' ')[1:]:
                 k, v = f.split('=')
-                if k in ('remFound', 'grow', 'shrink', 'fmtIn', 'fmtOut', 'pct', 'show', 'calls', 'slack', 'disagree'): acc['model_' + k] = acc.get('model_' + k, 0) + int(v)
+                if k in ('remFound', 'grow', 'shrink', 'fmtIn', 'fmtOut', 'pct', 'show', 'calls', 'slack', 'disagree', 'lookOk', 'lookPlain', 'lookEsc', 'lookNoQuote', 'lookEof', 'lookBadEsc', 'stkRefused', 'stkRan'): acc['model_' + k] = acc.get('model_' + k, 0) + int(v)
         for l in core.lines_with('I alias', c_out):
             acc.setdefault('alias_probes', [])
             if len(acc['alias_probes']) < 18: acc['alias_probes'].append(l[2:160])
